@@ -26,6 +26,8 @@ DECIDED_R6 = ('Round 6: the trailing literal is emitted whenever it is not empty
 DECIDED = DECIDED + ' ' + DECIDED_R6
 DECIDED_R7 = ('Round 7: premises from the matcher (C01.c back-tracking copies, C11.e filter comparison, C11.b remove_hook keeps names).')
 DECIDED = DECIDED + ' ' + DECIDED_R7
+DECIDED_R8 = ('Round 8: the matcher gets the path with every enclosing slash removed; premises C01.c (look-back pop) and C11.c (named route is the mounted one).')
+DECIDED = DECIDED + ' ' + DECIDED_R8
 NOT_DECIDED = 'match o build = identity over all runtime strings (regex semantics of user filters; float repr of exponent forms).'
 ASSUMPTIONS = ['str(int(x)) / str(float(x)) round-trip through int / float', 'pattern_out contains one marker character per wildcard']
 
@@ -390,9 +392,10 @@ def check(P, R):
     from ..report import run_premise
     from . import c11 as _c11
     why_ = 'every parameter assignment a rule produces by matching builds a URL that the rule matches with the same values'
-    run_premise(R, _c01, P, {'C01.c'}, 'C19.a', why_)
+    run_premise(R, _c01, P, {'C01.c', 'C01.e'}, 'C19.a', why_)
     run_premise(R, _c11, P, {'C11.b', 'C11.e'}, 'C19.a', why_)
     _c11.check_named_is_mounted(P, R, 'C19.a')
+    _c11.check_data_with_params(P, R, 'C19.a', why_)
     check_path_normalised(P, R, 'C19.a', why_)
     f = P.func(f'{RR}:Route.url')
     g, rd = f.cfg, f.rd
